@@ -428,6 +428,19 @@ func inferAll(P *Program, U *Universe, fns []*ssa.Function, dir string, seed int
 		if len(obs) > 0 {
 			qfSatFinal = os.Getenv("GOVC_HOUDINI_FULL") == ""
 			solveAll(obs, dir, 2, 16, seed, []int{0}, false)
+			// a candidate that was neither proved nor refuted (solver gave up
+			// under the short budget) gets a second, longer attempt on all
+			// solvers before it is dropped: which invariants are kept must not
+			// depend on machine load
+			var again []*Oblig
+			for _, o := range obs {
+				if !o.ok() && (o.Result == nil || o.Result.Status != "sat") {
+					again = append(again, o)
+				}
+			}
+			if len(again) > 0 {
+				solveAll(again, dir+"-retry", 15, 16, seed, []int{0, 1, 2}, false)
+			}
 			qfSatFinal = false
 			bad := map[*Clause]bool{}
 			touched := map[*ssa.Function]bool{}
